@@ -282,6 +282,18 @@ def run_contract(ex, c, argmap, st, e, yield_from=False):
     for label, fn in c._requires:
         goal = fn(ctx0)
         ex.oblige(st, '%s:%s' % (site, label), goal, 'call-pre', ctx0, lineno=getattr(e, 'lineno', None))
+    # schematic preconditions: proved for fresh parameters (the caller's own schema of the same name,
+    # instantiated at those parameters, is available)
+    for sname, (sfn, mk) in c.schemas.items():
+        params = mk()
+        extra = []
+        if sname in ex.c.schemas:
+            e0 = Ctx(pre=ex.entry, cur=ex.entry, args=ex.args)
+            extra.append(ex.c.schemas[sname][0](e0, *params))
+            extra += e0.defs
+        goal = sfn(ctx0, *params)
+        ex.oblige(st, '%s:schema[%s]' % (site, sname), goal, 'call-pre', ctx0, extra=extra,
+                  lineno=getattr(e, 'lineno', None))
     # assertions the caller's contract attaches to its calls of this callee (e.g. how a wait is armed)
     for label, fn in getattr(ex.c, 'at_call', {}).get(c.qualname, []):
         cc = ex.mkctx(st)
